@@ -110,6 +110,10 @@ class UData:
         for lo, hi, v in gnorm._ranges(d["mcc"]):
             for c in range(lo, hi + 1):
                 self.mcc[c] = v
+        self.ccc = {}
+        for lo, hi, v in gnorm._ranges(d["ccc"]):
+            for c in range(lo, hi + 1):
+                self.ccc[c] = v
         self.marks = set()
         for lo, hi, v in gnorm._ranges(d["marks"]):
             self.marks.update(range(lo, hi + 1))
@@ -380,6 +384,327 @@ def prim_lines(U, r, n):
     return lines
 
 
+# ------------------------------------------------------------------------------------------------
+# search: end to end through shape() (public API) against the CPython reference
+
+
+def ref_tables():
+    """one-step canonical mappings and primary composites of CPython's unicodedata"""
+    dec, comp = {}, {}
+    for c in range(0x110000):
+        if 0xD800 <= c <= 0xDFFF or 0xAC00 <= c < 0xAC00 + 11172:
+            continue
+        dm = unicodedata.decomposition(chr(c))
+        if not dm or dm.startswith("<"):
+            continue
+        parts = [int(x, 16) for x in dm.split()]
+        dec[c] = (parts[0], parts[1] if len(parts) == 2 else 0)
+        if len(parts) == 2 and unicodedata.normalize("NFC", chr(parts[0]) + chr(parts[1])) == chr(c):
+            comp[(parts[0], parts[1])] = c
+    return dec, comp
+
+
+def nfd(text):
+    return [ord(x) for x in unicodedata.normalize("NFD", "".join(chr(c) for c in text))]
+
+
+def nfc_restricted(text, supported, RC):
+    """UAX #15 composition of NFD(text) where a primary composite may only be formed if `supported`;
+    with supported = everything this is NFC (asserted by the caller on a sample)"""
+    d = nfd(text)
+    if not d:
+        return d
+    out = [d[0]]
+    starter = 0
+    for c in d[1:]:
+        cc = unicodedata.combining(chr(c))
+        is_mark = unicodedata.category(chr(c)).startswith("M")
+        last_cc = unicodedata.combining(chr(out[-1]))
+        if is_mark and (starter == len(out) - 1 or last_cc < cc):
+            comp = RC.get((out[starter], c))
+            if comp is not None and supported(comp):
+                out[starter] = comp
+                continue
+        out.append(c)
+        if cc == 0:
+            starter = len(out) - 1
+    return out
+
+
+def shape_line(fid, text):
+    t = ",".join(f"{c:x}:{i}" for i, c in enumerate(text))
+    return f"shape {fid} l Latn - 0 0 - - - {t}"
+
+
+def parse_shape(out):
+    if not out.startswith("ok"):
+        return None
+    return [int(g.split(":")[0]) for g in out.split()[2:]]
+
+
+def search_singles(ctx, shim, U, RD, stride):
+    """every character with a canonical decomposition x 3 support variants"""
+    chars = [c for c in sorted(U.decomp)]
+    chars = chars[::stride]
+    groups, meta = [], []
+    for c in chars:
+        clo = U.closure(c)
+        full = U.full(c)
+        a, b = U.decomp[c]
+        variants = [
+            ("all", sorted(set(clo)), [c]),
+            ("not-self", sorted(set(clo) - {c}), None),
+            ("leaves", sorted(set(full)), full),
+        ]
+        for name, sup, expect in variants:
+            if not sup:
+                continue
+            if expect is None:
+                # shortest decomposition whose pieces the font has: with every piece but c itself supported
+                # that is the one-step mapping
+                expect = [a] + ([b] if b else [])
+            g = groups_from_set(sup)
+            groups.append([f"font s {build_font(g).hex()}", shape_line("s", [c])])
+            meta.append((c, name, g, expect))
+    outs = vlib.run_groups(shim, groups, timeout=900)
+    n = nontriv = bad = 0
+    dist = {}
+    for (c, name, g, expect), o, grp in zip(meta, outs, groups):
+        n += 1
+        got = parse_shape(o[1])
+        want = [glyph_of(g, x) for x in expect]
+        dist[name] = dist.get(name, 0) + 1
+        if name != "all":
+            nontriv += 1
+        ok = got == want
+        why = "shape() disagrees with the crate's own table"
+        # reference: the expectation itself must agree with CPython for characters it knows
+        if assigned14(c):
+            if name == "not-self" and RD.get(c) != (U.decomp[c]):
+                ok = False
+                why = f"the crate's mapping differs from CPython's {RD.get(c)}"
+            if name == "leaves" and nfd([c]) != expect:
+                ok = False
+                why = f"the crate's full decomposition differs from CPython's NFD {['%04X' % x for x in nfd([c])]}"
+        if not ok:
+            bad += 1
+            ctx.violation(f"single U+{c:04X} ({name} supported): shape() gave glyphs {got}, expected {want} "
+                          f"(chars {['%04X' % x for x in expect]}); {why}",
+                          {"stage": "search", "stream": "singles", "font_line": grp[0], "request": grp[1],
+                           "expected_glyphs": want, "observed": o[1], "variant": name, "char": c})
+    ctx.note_search("singles", n, nontriv, distribution=dist, stride=stride,
+                    rule="every character of the crate's decomposition table (stride in quick) shaped alone with a "
+                         "cmap-only font supporting (all) its whole decomposition closure, (not-self) the closure "
+                         "without the character, (leaves) only its full decomposition; expected [c] / the one-step "
+                         "mapping / NFD(c); for characters assigned in CPython's Unicode the expectation is "
+                         "cross-checked against unicodedata; non-trivial = the two variants that decompose")
+
+
+def lgc_material(U, RD, RC):
+    """Latin/Greek/Cyrillic starters and the marks they compose with (reference data, Unicode 14)"""
+    def lgc(c):
+        try:
+            n = unicodedata.name(chr(c))
+        except ValueError:
+            return False
+        return n.startswith(("LATIN", "GREEK", "CYRILLIC"))
+    starters, marks = set(), set()
+    for (a, b), c in RC.items():
+        if lgc(a) and unicodedata.combining(chr(b)) != 0 and b < 0x10000:
+            starters.add(a)
+            marks.add(b)
+    return sorted(starters), sorted(marks)
+
+
+def search_strings(ctx, shim, U, RD, RC, r, n_starters, kmax_exh, n_random):
+    starters, marks = lgc_material(U, RD, RC)
+    # composites reachable from a base letter
+    by_base = {}
+    for c in RD:
+        if 0xD800 <= c <= 0xDFFF:
+            continue
+        f = nfd([c])
+        if all(x in marks for x in f[1:]) and len(f) > 1:
+            by_base.setdefault(f[0], []).append(c)
+    chosen = starters if n_starters >= len(starters) else r.sample(starters, n_starters)
+    groups, meta = [], []
+    # self-check of the reference implementation: with everything supported it is NFC
+    for s in chosen[:50]:
+        for m1 in marks[:8]:
+            for m2 in marks[:8]:
+                t = [s, m1, m2]
+                assert nfc_restricted(t, lambda c: True, RC) == [ord(x) for x in unicodedata.normalize("NFC", "".join(map(chr, t)))]
+    for s in chosen:
+        base = nfd([s])[0]
+        comps = sorted(set(by_base.get(base, [])) | {s})
+        leaves = sorted({base} | set(marks))
+        texts = [[s]]
+        for k in range(1, kmax_exh + 1):
+            idx = [0] * k
+            while True:
+                texts.append([s] + [marks[i] for i in idx])
+                j = k - 1
+                while j >= 0:
+                    idx[j] += 1
+                    if idx[j] < len(marks):
+                        break
+                    idx[j] = 0
+                    j -= 1
+                if j < 0:
+                    break
+        for _ in range(n_random):
+            k = r.range(kmax_exh + 1, 4) if kmax_exh < 4 else 4
+            texts.append([s] + [r.choice(marks) for _ in range(k)])
+        half = [c for c in comps if r.chance(1, 2)]
+        for vname, sup in (("all", sorted(set(leaves) | set(comps))), ("leaves", leaves),
+                           ("half", sorted(set(leaves) | set(half)))):
+            g = groups_from_set(sup)
+            supset = set(sup)
+            lines = [f"font t {build_font(g).hex()}"] + [shape_line("t", t) for t in texts]
+            groups.append(lines)
+            meta.append((vname, g, supset, texts))
+    outs = vlib.run_groups(shim, groups, timeout=1800)
+    n = nontriv = 0
+    dist = {}
+    for (vname, g, supset, texts), o, grp in zip(meta, outs, groups):
+        inv = {}
+        for s_, e_, g_ in g:
+            for c in range(s_, e_ + 1):
+                inv[g_ + (c - s_)] = c
+        for t, out, ln in zip(texts, o[1:], grp[1:]):
+            n += 1
+            got = parse_shape(out)
+            if len(t) == 1:
+                # one-character buffers are not normalized when the font has the character
+                expect = t if t[0] in supset else nfc_restricted(t, lambda c: c in supset, RC)
+            else:
+                expect = nfc_restricted(t, lambda c: c in supset, RC)
+            if vname == "leaves" and len(t) > 1:
+                assert expect == nfd(t)
+            want = [glyph_of(g, c) for c in expect]
+            key = f"{vname}:{len(t) - 1}marks"
+            dist[key] = dist.get(key, 0) + 1
+            if expect != t:
+                nontriv += 1
+            if got != want:
+                gotc = [inv.get(x, 0) for x in (got or [])]
+                ctx.violation(f"{vname}: text {['%04X' % c for c in t]} shaped to {['%04X' % c for c in gotc]}, "
+                              f"reference (NFC restricted to the font's characters) {['%04X' % c for c in expect]}",
+                              {"stage": "search", "stream": "strings", "font_line": grp[0], "request": ln,
+                               "expected_glyphs": want, "observed": out, "variant": vname})
+    ctx.note_search("strings", n, nontriv, distribution=dist, starters=len(chosen), marks=len(marks),
+                    rule="Latin/Greek/Cyrillic starter (every first component of a primary composite) + all strings of "
+                         f"0..{kmax_exh} marks (the {len(marks)} BMP second components) + random longer ones up to 4, shaped "
+                         "with cmap-only fonts: (all) every composite of the base letter, (leaves) base letters and marks "
+                         "only, (half) a random half of the composites; expected = UAX #15 composition over CPython "
+                         "data restricted to supported composites (= NFC / NFD for all / leaves); non-trivial = "
+                         "expected differs from the input")
+
+
+def search_reorder(ctx, shim, U, r, per_combo, cross):
+    """metamorphic: two adjacent marks with different non-zero canonical classes may be swapped without
+    changing the result (canonical equivalence), as long as the modified classes do not zero them"""
+    marks = [c for c in sorted(U.ccc) if U.mcc.get(c, 0) != 0]
+    blocks = {}
+    for c in marks:
+        blocks.setdefault(c >> 8, []).append(c)
+    generic = blocks.get(3, [])
+    groups, meta = [], []
+    for blk, ms in sorted(blocks.items()):
+        combos = {}
+        for i, m1 in enumerate(ms):
+            for m2 in ms[i + 1:]:
+                if U.ccc[m1] != U.ccc[m2]:
+                    combos.setdefault((U.ccc[m1], U.ccc[m2]), []).append((m1, m2))
+        pairs = []
+        for k, ps in sorted(combos.items()):
+            pairs += ps if per_combo is None else r.sample(ps, per_combo)
+        if blk != 3:
+            for m1 in (ms if cross is None else r.sample(ms, min(cross, len(ms)))):
+                for m2 in r.sample(generic, 4):
+                    if U.ccc[m1] != U.ccc[m2]:
+                        pairs.append((m1, m2))
+        if not pairs:
+            continue
+        g = groups_from_set([0x61] + ms + generic)
+        lines = [f"font r {build_font(g).hex()}"]
+        for m1, m2 in pairs:
+            third = r.choice(ms)
+            lines.append(shape_line("r", [0x61, m1, m2]))
+            lines.append(shape_line("r", [0x61, m2, m1]))
+            # and inside a longer run
+            lines.append(shape_line("r", [0x61, third, m1, m2]) if U.ccc[third] <= min(U.ccc[m1], U.ccc[m2])
+                         else shape_line("r", [0x61, m1, m2, third]))
+            lines.append(shape_line("r", [0x61, third, m2, m1]) if U.ccc[third] <= min(U.ccc[m1], U.ccc[m2])
+                         else shape_line("r", [0x61, m2, m1, third]))
+        groups.append(lines)
+        meta.append(pairs)
+    outs = vlib.run_groups(shim, groups, timeout=1800)
+    n = nontriv = 0
+    classes = set()
+    for pairs, o, grp in zip(meta, outs, groups):
+        for i, (m1, m2) in enumerate(pairs):
+            for off in (0, 2):
+                a, b = o[1 + 4 * i + off], o[2 + 4 * i + off]
+                ga, gb = parse_shape(a), parse_shape(b)
+                n += 2
+                nontriv += 2
+                classes.add((U.ccc[m1], U.ccc[m2]))
+                if ga is None or ga != gb or 0 in (ga or [0]):
+                    ctx.violation(f"canonically equivalent mark orders shape differently: U+{m1:04X} (ccc {U.ccc[m1]}, "
+                                  f"modified {U.mcc[m1]}) / U+{m2:04X} (ccc {U.ccc[m2]}, modified {U.mcc[m2]}): {ga} vs {gb}",
+                                  {"stage": "search", "stream": "reorder", "font_line": grp[0],
+                                   "request": grp[1 + 4 * i + off], "request2": grp[2 + 4 * i + off],
+                                   "observed": a, "observed2": b})
+    ctx.note_search("reorder", n, nontriv, class_pairs=len(classes), blocks=len(groups),
+                    rule="letter a + two marks of different non-zero canonical classes (same 256-block, or one from "
+                         "U+03xx) in both orders, alone and next to a third mark, cmap-only font without composites, "
+                         "script forced to Latn (default shaper): both orders must give the same glyphs; marks whose "
+                         "modified class is 0 are excluded")
+
+
+KNOWN = [
+    {"id": "C09-comp-non-starter-pairs", "status": "known", "property": "C09",
+     "signature": {"finding": "comp-non-starter-pairs"},
+     "what": "unicode_norm.rs::COMPOSITION_TABLE composes the four non-starter pairs U+0308 U+0301 -> U+0344, "
+             "U+0F71 U+0F72/0F74/0F80 -> U+0F73/0F75/0F81, which Unicode excludes from composition and HarfBuzz does "
+             "not compose (theorem known_C09_comp_has_excluded_pairs)"},
+    {"id": "C09-hangul-tbase", "status": "known", "property": "C09",
+     "signature": {"finding": "hangul-tbase"},
+     "what": "unicode.rs::compose_hangul accepts T_BASE itself (U+11A7) as a trailing consonant: compose(U+AC00, U+11A7) "
+             "= U+AC00 (HarfBuzz: TBASE < b); not reachable through the default shaper because U+11A7 is not a mark "
+             "(theorem known_C09_hangul_tbase)"},
+]
+
+
+def replay_known(ctx, shim):
+    """the witnesses of the known_C09_* counter-theorems, replayed on the crate"""
+    # proposed known_findings.json entries (that file is shared; they are registered here at run time)
+    ctx.kf = list(ctx.kf) + [k for k in KNOWN if k["id"] not in [x.get("id") for x in ctx.kf]]
+    lines = ["norm compose 776 769", "norm compose 3953 3954", "norm compose 3953 3956", "norm compose 3953 3968",
+             "norm compose 44032 4519"]
+    outs = vlib.run_lines(shim, lines, nproc=1)
+    if outs[:4] == ["836", "3955", "3957", "3969"]:
+        ctx.violation("composition table contains the non-starter pairs excluded from composition",
+                      {"stage": "search", "stream": "known", "finding": "comp-non-starter-pairs", "requests": lines[:4],
+                       "observed": outs[:4]})
+    elif any(o != "-" for o in outs[:4]):
+        ctx.violation("composition of non-starter pairs changed but is still partly present",
+                      {"stage": "search", "stream": "known", "requests": lines[:4], "observed": outs[:4]})
+    if outs[4] == "44032":
+        ctx.violation("compose_hangul(LV, T_BASE) = LV",
+                      {"stage": "search", "stream": "known", "finding": "hangul-tbase", "request": lines[4],
+                       "observed": outs[4]})
+    # and through the public API: U+0308 U+0301 with a font that has U+0344
+    g = groups_from_set([0x308, 0x301, 0x344])
+    o = vlib.run_groups(shim, [[f"font k {build_font(g).hex()}", shape_line("k", [0x308, 0x301])]], nproc=1)[0]
+    ctx.cov.setdefault("known_replays", []).append({"request": "shape <U+0308 U+0301> with a font that has U+0344",
+                                                    "observed_glyphs": parse_shape(o[1]),
+                                                    "composed_glyph": glyph_of(g, 0x344)})
+    ctx.note_search("known-witnesses", len(lines) + 1, len(lines) + 1,
+                    rule="witnesses of the known_C09_* counter-theorems replayed on the crate")
+
+
 def run(ctx):
     ctx.assumptions += [
         "the theorems are about the Lean model of ot_shape_normalize.rs / unicode.rs (Norm.lean); the model is tied to "
@@ -397,6 +722,12 @@ def run(ctx):
     ctx.correspond("norm-prims", lines=prim_lines(U, ctx.rng("prims"), ctx.budget(4000, 100000)),
                    classify=lambda ln, out: [ln.split()[1] + (":none" if out == "-" else "")])
     ctx.correspond("norm-run", lines=gen_run_lines(ctx.rng("run"), ctx.budget(6000, 150000), U), classify=classify_run)
+    RD, RC = ref_tables()
+    replay_known(ctx, shim)
+    search_reorder(ctx, shim, U, ctx.rng("reorder"), ctx.budget(2, None), ctx.budget(6, None))
+    search_singles(ctx, shim, U, RD, ctx.budget(5, 1))
+    search_strings(ctx, shim, U, RD, RC, ctx.rng("strings"), ctx.budget(40, 10 ** 6), ctx.budget(1, 2),
+                   ctx.budget(20, 60))
 
 
 def replay(ctx, rp):
